@@ -11,9 +11,9 @@ NOTE = ("Trusted base: the harness driver and reference model in /verif (Go), th
 
 CHECKS = {
  # id: (category, technique, text, design_ref)
- 'C01': ('exploration', 'runtime monitoring: reference-model monitor + replicated-view fold over wire-level event logs of generated sequential histories and concurrent blocks',
+ 'C01': ('exploration', 'runtime monitoring: reference-model monitor + replicated-view fold over wire-level event logs of generated sequential histories, concurrent blocks (free, jittered, stepped) and step-through runs (join / leave / switch / delete parked at every scheduling point they pass)',
          'Every member\'s folded view is compared with the server state (model, checked against what each joiner is handed) at checkpoints of seeded sequential histories over all module subsets; inapplicable broadcasts are flagged when received.', '4 C01'),
- 'C02': ('exploration', 'runtime monitoring: exactly-once / no-echo / order oracle over attributed relays (unique origin tags) in recorded event logs',
+ 'C02': ('exploration', 'runtime monitoring: exactly-once / no-echo / order oracle over attributed relays (unique origin tags) in recorded event logs of sequential histories, concurrent blocks, lagging-member trials and step-through runs',
          'Each relay is attributed to the request that caused it through a unique origin tag; per step the exact recipient multiset is demanded behind a session barrier.', '4 C02'),
  'C03': ('exploration', 'runtime monitoring: per-session reference model + differential re-run (noninterference) of recorded histories on a fresh process',
          'Histories over several sessions with coinciding ids are judged by a model with no cross-session terms, and re-run with the other sessions\' traffic removed; streams must be equal after normalisation.', '4 C03'),
@@ -21,11 +21,11 @@ CHECKS = {
          'Every request kind with refusal-heavy argument pools; exactly one answer, right type or an acceptable error code, and no effect of refused requests (relays, later handed state).', '4 C04'),
  'C05': ('exploration', 'runtime monitoring: reference-model monitor over attack-profile histories (foreign delete / pose / asset attempts) with probe comparison',
          'Foreign attempts on every (requester, entity) kind including after the owner left; answers, silence behind barriers and the state handed to later joiners are checked.', '4 C05'),
- 'C07': ('exploration', 'runtime monitoring: registry reference model over sequential histories + gated interleavings (injected scheduling points) with probe / gauge / goroutine-census oracles',
+ 'C07': ('exploration', 'runtime monitoring: registry reference model over sequential histories + gated interleavings and step-through runs (last departure, creation, switch, join parked at every scheduling point they pass) with probe / gauge / goroutine-census oracles',
          'Create-join-switch-leave histories with id reuse judged by the model, probes, the session gauge and a frame-worker census; the dangerous overlaps (join x last departure, two last departures, late unregistration x creation) are forced with gates at scheduling points injected by the build overlay.', '4 C07'),
  'C08': ('fault_enumeration', 'runtime monitoring: liveness oracles (process alive, normal-path departure exactly once, witnesses, gauges, goroutine census, panic log scan) over an enumerated catalogue of hostile inputs x life phases and thousands of failing bursts',
          'Every offence of an enumerated catalogue (structural messages of core and modules with absent fields / boundary scalars, byte-level frames, broken WebSocket framing, bursts) is placed at each life phase against a child process with witnesses in the same and another session.', '4 C08'),
- 'C09': ('exploration', 'sanitizer: Go race detector over repeated storms of 2-16 unsynchronised clients (free-running and jittered at injected scheduling points) + wedge / runtime-fatal / never-completed oracles',
+ 'C09': ('exploration', 'sanitizer: Go race detector over repeated storms of 2-16 unsynchronised clients (free-running and jittered at injected scheduling points) + wedge / runtime-fatal / never-completed oracles; runtime monitoring: lock-order graph (held-set per goroutine, cycle = reachable deadlock) over sequential histories and step-through runs',
          'A -race build of the lab SUT with the production decorators and all modules is driven by repeated concurrent storms; any race report with a hagall frame, runtime fatal, request that never completes or goroutine left parked in hagall code is a violation.', '4 C09'),
  'C06': ('fault_enumeration', 'runtime monitoring: departure oracles (relays at remaining members, state handed to a later joiner, subscription ended) over the enumerated ways a connection can end x entity/attachment mixes, plus reference-model histories',
          'Every cause of a departure (FIN, RST, half-close, undecodable frame, missing timestamp, text frame, handler error, idle timeout, switch to another / a new session) x mixes of persistent / non-persistent entities with component, action and asset attached x sole-subscriber or not.', '4 C06'),
